@@ -141,7 +141,7 @@ func (r *ref) stmt(s Stmt, caught *thrown, lvl int) completion {
 			return completion{kind: cThrow} // `throw` of an unbound variable: a class-less error
 		}
 		return completion{kind: cThrow, exc: *caught}
-	case "gp":
+	case "gp", "ie":
 		return completion{kind: cHostFailure}
 	case "r":
 		return completion{kind: cReturn, val: tagged(s.N)}
